@@ -18,14 +18,14 @@ RULE = ("states = (tissue, grid, radius) full product; and histories of assignme
 BOUND = {"quick": "2 tissues x grid 1..12 x 5 radii; assignment histories to depth 3 over 8 assignments at 2 (grid, radius) points",
          "thorough": "4 tissues x grid 1..12 x 5 radii x 3 assignments; histories to depth 4"}
 ASSUMPTIONS = ["tolerance 1e-9 relative for linearity / fresh-frame identity (pure arithmetic)"]
-REQUIRED_TAGS = {"all": ["empty_grid_cell", "full_grid_cell", "pure_pressure", "linearity", "history", "principal", "grid12"]}
+REQUIRED_TAGS = {"all": ["empty_grid_cell", "full_grid_cell", "pure_pressure", "linearity", "history", "principal", "grid12", "small_length_unit", "large_length_unit"]}
 
 
-def make_frame(base, cells):
+def make_frame(base, cells, unit=1.0):
     at = bases.get(base)
     if cells:
         at = T.sub_tissue(at, cells)
-    cm = SC.make_cmap(["m", 0.05, 0.02], 0.3, (0, 0), 1.0, SC.extent_of(bases.get(base)))
+    cm = SC.make_cmap(["m", 0.05, 0.02], 0.3, (0, 0), unit, SC.extent_of(bases.get(base)))
     with fsutil.quiet():
         v, e, c, info = T.realise(at, k=3, cmap=cm)
         fr = T.frame_of(v, e, c)
@@ -119,10 +119,13 @@ class Stress:
         return dict(d, ops=d["ops"] + [a[0]])
 
     def evaluate(self, d):
-        base, cells = self.tissues[d["t"]]
+        base, cells = self.tissues[d["t"]][:2]
+        unit = self.tissues[d["t"]][2] if len(self.tissues[d["t"]]) > 2 else 1.0
         grid, radius = d["g"], d["r"]
-        fr = make_frame(base, cells)
+        fr = make_frame(base, cells, unit)
         viol, known, tags = [], [], []
+        if unit != 1.0:
+            tags.append("small_length_unit" if unit < 1 else "large_length_unit")
         if len(d["ops"]) > 1:
             tags.append("history")
         last = None
@@ -163,7 +166,7 @@ class Stress:
                         viol.append({"what": "tensor is not minus p times the identity for uniform pressure and zero tensions", "detail": {"cell": rc, "M": M.tolist(), "p": spec[1]}})
                         break
         # fresh frame with only the last assignment (history independence)
-        fr2 = make_frame(base, cells)
+        fr2 = make_frame(base, cells, unit)
         assign(fr2, a)
         res2, ex = fsutil.call(tensor, fr2, grid, radius)
         if ex is not None:
@@ -179,19 +182,19 @@ class Stress:
         # and (for the mix) = sum over unit basis responses
         if spec[0] in ("mix", "neg") and not viol:
             tags.append("linearity")
-            frp = make_frame(base, cells)
+            frp = make_frame(base, cells, unit)
             assign(frp, {"p": a["p"], "t": [0.0] * len(a["t"])})
             rp, ex = fsutil.call(tensor, frp, grid, radius)
             if ex is not None:
                 return {"viol": [{"what": "stress_tensor raised with zero tensions", "detail": fsutil.exc_str(ex)}], "tags": tags, "cls": "exc"}
             Sp = as_grid(rp[0], grid)
-            frt = make_frame(base, cells)
+            frt = make_frame(base, cells, unit)
             assign(frt, {"p": [0.0] * len(a["p"]), "t": a["t"]})
             rt, ex = fsutil.call(tensor, frt, grid, radius)
             if ex is not None:
                 return {"viol": [{"what": "stress_tensor raised with zero pressures", "detail": fsutil.exc_str(ex)}], "tags": tags, "cls": "exc"}
             St = as_grid(rt[0], grid)
-            fr3 = make_frame(base, cells)
+            fr3 = make_frame(base, cells, unit)
             assign(fr3, {"p": [2.5 * x for x in a["p"]], "t": [2.5 * x for x in a["t"]]})
             r3, ex = fsutil.call(tensor, fr3, grid, radius)
             if ex is not None:
@@ -237,12 +240,15 @@ class Stress:
 
 
 SPECS = [["mix", 0.4], ["zero"], ["p_uniform", 1.7], ["p_basis", 1], ["t_basis", 2], ["mix", 2.2], ["neg"], ["p_uniform", -0.6]]
+UNIT_SPECS = [["p_uniform", 1.7], ["mix", 0.4], ["neg"], ["p_uniform", -0.6]]
 
 
 def build(tier, seed):
     if tier == "quick":
         return [Stress("grid-x-radius", [["v5x5", None], ["v5x4p%d" % (seed + 1), None]], list(range(1, 13)), [0.5, 1, 2, 4, 6], SPECS, 0),
                 Stress("grid-x-radius-pure-pressure", [["v5x5", None]], [1, 2, 3, 5, 8, 11], [0.5, 2, 6], [["p_uniform", 1.7]], 0),
+                Stress("length-units", [["v5x5", None, u] for u in (1e-6, 1e-5, 1e-3, 1e3, 1e6)], [1, 3, 6], [0.5, 2], UNIT_SPECS, 1),
                 Stress("assignment-histories", [["v5x4", None]], [3], [1.0, 0.4], SPECS, 2)]
     return [Stress("grid-x-radius", [["v5x5", None], ["v6x5", None], ["v6x6", None], ["v5x4p%d" % (seed + 1), None]], list(range(1, 13)), [0.5, 1, 2, 4, 6], SPECS, 1),
+            Stress("length-units", [[b, None, u] for b in ("v5x5", "v6x5") for u in (1e-8, 1e-6, 1e-5, 1e-4, 1e-3, 1e-2, 1e2, 1e3, 1e6)], [1, 2, 3, 6, 9], [0.5, 1, 2, 6], UNIT_SPECS, 2),
             Stress("assignment-histories", [["v5x4", None], ["v5x5", None]], [3, 5], [1.0, 0.4], SPECS, 3)]
